@@ -69,7 +69,7 @@ pub fn atoms(thorough: bool) -> Vec<Atom> {
         v.push(atom(format!("roles|{}", p.key), p.src, true));
     }
     for (i, p) in crate::c08::space(false).into_iter().enumerate() {
-        if p.key.starts_with("io-nested") || p.key.starts_with("single|") && hash64(&p.key) % 16 == 0 || i % if thorough { 97 } else { 997 } == 0 {
+        if p.key.starts_with("io-nested") || p.key.starts_with("single|") && hash64(&p.key) % if thorough { 16 } else { 32 } == 0 || i % if thorough { 97 } else { 997 } == 0 {
             v.push(atom(format!("roles8|{}", p.key), p.src, true));
         }
     }
@@ -91,9 +91,19 @@ pub fn atoms(thorough: bool) -> Vec<Atom> {
             v.push(atom(format!("push-constant|{}", p.key), p.src, true));
         }
     }
+    // several push-constant variables in one module (each entry point uses at most one)
+    for (what, src) in [
+        ("vs-fs", "var<push_constant> pc_v: vec4<f32>;\nvar<push_constant> pc_f: vec2<f32>;\n@vertex fn vs() -> @builtin(position) vec4<f32> { return pc_v; }\n@fragment fn fs() -> @location(0) vec4<f32> { return vec4<f32>(pc_f, 0.0, 1.0); }\n"),
+        ("cs-cs", "var<push_constant> pc_a: u32;\nvar<push_constant> pc_b: mat4x4<f32>;\n@compute @workgroup_size(1) fn one() { _ = pc_a; }\n@compute @workgroup_size(1) fn two() { _ = pc_b[0].x; }\n"),
+        ("one-unused", "var<push_constant> pc_used: vec4<f32>;\nvar<push_constant> pc_idle: f32;\n@fragment fn fs() -> @location(0) vec4<f32> { return pc_used; }\n@compute @workgroup_size(1) fn cs() { }\n"),
+        ("both-unused", "var<push_constant> pc_x: f32;\nvar<push_constant> pc_y: f32;\n@vertex fn vs() -> @builtin(position) vec4<f32> { return vec4<f32>(0.0); }\n"),
+        ("three", "var<push_constant> pc_1: f32;\nvar<push_constant> pc_2: vec2<f32>;\nvar<push_constant> pc_3: vec4<f32>;\n@vertex fn vs() -> @builtin(position) vec4<f32> { return vec4<f32>(pc_1); }\n@fragment fn fs() -> @location(0) vec4<f32> { return vec4<f32>(pc_2, 0.0, 1.0); }\n@compute @workgroup_size(1) fn cs() { _ = pc_3; }\n"),
+    ] {
+        v.push(atom(format!("push-constant|several-vars|{what}"), src.to_string(), false));
+    }
     // ---- entry shapes
     for (i, p) in crate::c14::space(false).into_iter().enumerate() {
-        if thorough || i % 9 == 0 || p.key.starts_with("multi") {
+        if thorough || i % 11 == 0 || p.key.starts_with("multi") {
             v.push(atom(format!("entries|{}", p.key), p.src, true));
         }
     }
@@ -261,7 +271,7 @@ pub fn run(tier: &str) -> i32 {
     let mut evals: Vec<(usize, Config)> = vec![];
     for (i, a) in all.iter().enumerate() {
         let cfgs: Vec<Config> = if a.structs && (thorough || a.id.starts_with("struct|s1|") || a.id.starts_with("roles|roles=VHBFNW") || a.id.starts_with("struct|bool") || a.id.starts_with("struct|rt1")) {
-            if thorough || hash64(&a.id) % 4 == 0 || a.id.starts_with("roles|") || a.id.starts_with("struct|bool") { Config::derive_space() } else { base_configs() }
+            if thorough || hash64(&a.id) % 5 == 0 || a.id.starts_with("roles|") || a.id.starts_with("struct|bool") { Config::derive_space() } else { base_configs() }
         } else {
             base_configs()
         };
